@@ -5,6 +5,7 @@ R2 credentials: creating calls run while the caller's credentials are switched i
 R3 special files are never (re)opened for I/O: is_safe_inode gates every non-O_PATH open
 R4 every libc result is tested and converted with last_os_error() on the failing edge
 R5 flag algebra: writeback open flags, O_DIRECT handling, fd-flag refresh
+R6 field-wise coherence: utimens slot selection in setattr, statx -> stat64 conversion, the CAP_FSETID guard
 """
 import json
 import os
@@ -63,6 +64,7 @@ def run(ctx):
         ctx.run_rule("R2-credentials", r2_creds, F)
         ctx.run_rule("R3-special-files", r3_special, F)
         ctx.run_rule("R4-error-conversion", r4_errors, F)
+        ctx.run_rule("R6-field-coherence", r6_fields, F)
         ctx.run_rule("R5-flag-algebra", r5_flags, F, table)
     finally:
         vf.NOUPD[0] = False
@@ -230,6 +232,85 @@ def r2_creds(ctx, F):
     ctx.check("R2-credentials", "CapFsetid/drop", ok, "CapFsetid::drop no longer raises CAP_FSETID", loc=cd[0].loc() if cd else "")
 
 
+def r6_fields(ctx, F):
+    rule = "R6-field-coherence"
+    # ---- setattr: tvs[0] is the access time, tvs[1] the modification time; each slot is written only under its own flags
+    b = c08.pfs_method(F, "setattr")
+    v = vf.VF(b, inline_depth=0)
+    seen = set()
+    for bb in sorted(b.reachable()):
+        for i, s in enumerate(b.stmts(bb)):
+            if not (s[0] == "=" and len(s[1]) == 3 and isinstance(s[1][1], list) and s[1][1][0] == "[]" and s[1][2][0] == "."
+                    and s[1][2][2] in ("tv_sec", "tv_nsec")):
+                continue
+            idx = vf.render(v.local_at(s[1][1][1], bb, i), b, short=True)
+            fld = s[1][2][2]
+            val = vf.render(v.rvalue(s[2], bb, i), b, short=True)
+            g = [(vf.render(c, b, short=True), l) for (c, l, u) in v.guards(bb)]
+            X = {"0": "A", "1": "M"}.get(idx)
+            key = "utimens/tvs%s.%s=%s" % (idx, fld, val)
+            if X is None:
+                ctx.violation(rule, key, "setattr writes timespec slot `%s`; futimens/utimensat take exactly [atime, mtime]" % idx, loc=b.loc(s[3]))
+                continue
+            now = ("SetattrValid::contains(valid, %sTIME_NOW)" % X, "otherwise")
+            notnow = ("SetattrValid::contains(valid, %sTIME_NOW)" % X, 0)
+            expl = ("SetattrValid::contains(valid, %sTIME)" % X, "otherwise")
+            tname = "st_%stime" % X.lower()
+            if val == "UTIME_NOW":
+                ok = fld == "tv_nsec" and now in g
+            elif val == "attr." + tname:
+                ok = fld == "tv_sec" and expl in g and now not in g
+            elif val == "attr." + tname + "_nsec":
+                ok = fld == "tv_nsec" and expl in g and now not in g
+            else:
+                ok = False
+            seen.add((X, fld, "now" if val == "UTIME_NOW" else "explicit"))
+            ctx.check(rule, key, ok,
+                      "setattr stores `%s` into tvs[%s].%s under %s: slot %s is the %s time and takes %s/%s_nsec under %sTIME (UTIME_NOW under %sTIME_NOW) only"
+                      % (val, idx, fld, [t for (t, l) in g if "TIME" in t and l != 0], idx, "access" if X == "A" else "modification", tname, tname, X, X),
+                      loc=b.loc(s[3]), detail=str([t for (t, l) in g if "TIME" in t][-2:]))
+    need = {(X, f, k) for X in "AM" for (f, k) in (("tv_nsec", "now"), ("tv_sec", "explicit"), ("tv_nsec", "explicit"))}
+    ctx.check(rule, "utimens/all-six-stores", need <= seen, "setattr no longer fills %s" % sorted(need - seen), loc=b.loc())
+    # ---- statx -> stat64: every field comes from its namesake
+    cands = [x for x in F.fns.values() if x.name == "stat64" and "statx" in x.key and x.kind == "assoc"]
+    if len(cands) != 1:
+        raise core.Anchor("SafeStatXAccess::stat64 (%d)" % len(cands))
+    sb = cands[0]
+    ctx.fn_seen(sb)
+    sv = vf.VF(sb, inline_depth=0)
+    want = {
+        "st_dev": "makedev(self.stx_dev_major, self.stx_dev_minor)", "st_rdev": "makedev(self.stx_rdev_major, self.stx_rdev_minor)",
+        "st_ino": "self.stx_ino", "st_mode": "self.stx_mode", "st_nlink": "self.stx_nlink", "st_uid": "self.stx_uid", "st_gid": "self.stx_gid",
+        "st_size": "self.stx_size", "st_blksize": "self.stx_blksize", "st_blocks": "self.stx_blocks",
+        "st_atime": "self.stx_atime.tv_sec", "st_atime_nsec": "self.stx_atime.tv_nsec", "st_mtime": "self.stx_mtime.tv_sec",
+        "st_mtime_nsec": "self.stx_mtime.tv_nsec", "st_ctime": "self.stx_ctime.tv_sec", "st_ctime_nsec": "self.stx_ctime.tv_nsec",
+    }
+    got = {}
+    for bb in sorted(sb.reachable()):
+        for i, s in enumerate(sb.stmts(bb)):
+            if s[0] == "=" and len(s[1]) == 2 and isinstance(s[1][1], list) and s[1][1][0] == "." and str(s[1][1][2]).startswith("st_"):
+                t = vf.render(vf.strip_casts(sv.rvalue(s[2], bb, i)), sb, short=True)
+                t = re.sub(r"\b[\w:]*makedev\(", "makedev(", t)
+                got[s[1][1][2]] = t
+    for f, w in sorted(want.items()):
+        ctx.check(rule, "statx/" + f, got.get(f) == w, "statx conversion fills %s from `%s`; the stat64 a client sees must carry `%s`" % (f, got.get(f), w), loc=sb.loc(), detail=got.get(f) or "")
+    # ---- the CAP_FSETID guard tests, drops and restores the same capability in the same (effective) set
+    capc = []
+    for k, x in F.fns.items():
+        if not k.startswith("passthrough::"):
+            continue
+        for c in live_calls(x):
+            if (c.callee or "").startswith("caps::") and c.name in ("has_cap", "drop", "raise"):
+                xv = vf.VF(x, inline_depth=0)
+                a = [vf.render(y, x, short=True) for y in xv.call_args(c)]
+                capc.append((x.name if x.kind != "closure" else F.fns[x.owner].name, c.name, a, c))
+    for (owner, nm, a, c) in capc:
+        ctx.check(rule, "capfsetid/%s/%s" % (owner, nm), len(a) == 3 and a[0] == "None" and a[1].endswith("Effective") and a[2].endswith("CAP_FSETID"),
+                  "%s calls caps::%s(%s): the guard must test, drop and restore CAP_FSETID in the calling thread's *effective* set" % (owner, nm, ", ".join(a)), loc=c.loc())
+    names = sorted(nm for (_, nm, _, _) in capc)
+    ctx.check(rule, "capfsetid/triple", names == ["drop", "has_cap", "raise"], "capability calls in passthrough: %s (expected one test, one drop, one restore)" % names)
+
+
 def r3_special(ctx, F):
     b = F.method(PFS, "open_inode")
     ctx.fn_seen(b)
@@ -334,6 +415,12 @@ def r5_flags(ctx, F, table):
         if os.environ.get("FBR_GEN"):
             print("OI", json.dumps(t))
         ctx.check("R5-flag-algebra", "open_inode-flags", t == exp["open_inode"], "open_inode opens with `%s`; required `%s`" % (t[:400], exp["open_inode"][:200]), loc=of[0].loc(), detail=t[:200])
+    handle_flag_tracking(ctx, F, "R5-flag-algebra")
+
+
+def handle_flag_tracking(ctx, F, rule):
+    """The flags word cached in a handle tracks the descriptor's real status flags (shared with C18: the O_APPEND test of the
+    size seal reads the request's flags, which are only as good as this cache)."""
     b = F.method(PFS, "check_fd_flags")
     v = vf.VF(b, inline_depth=0)
     sc = [c for c in live_calls(b) if c.name == "fcntl"]
@@ -343,7 +430,7 @@ def r5_flags(ctx, F, table):
         g = [(vf.render(cond, b, short=True), lab) for (cond, lab, u) in v.guards(sc[0].bb)]
         ok = ("Ne(HandleData::get_flags(data), flags)", "otherwise") in g or ("Ne(flags, HandleData::get_flags(data))", "otherwise") in g
         ok = ok and [vf.render(x, b, short=True) for x in v.call_args(sc[0])] == ["fd", "F_SETFL", "flags"] and vf.render(v.call_args(st[0])[1], b, short=True) == "flags"
-    ctx.check("R5-flag-algebra", "check_fd_flags", ok, "check_fd_flags is not `if stored != flags { fcntl(fd, F_SETFL, flags); store(flags) }`", loc=b.loc())
+    ctx.check(rule, "check_fd_flags", ok, "check_fd_flags is not `if stored != flags { fcntl(fd, F_SETFL, flags); store(flags) }`", loc=b.loc())
     # do_open stores the request's flags in the handle (so that the refresh above compares against them)
     b = F.method(PFS, "do_open")
     v = vf.VF(b, inline_depth=0)
@@ -352,7 +439,7 @@ def r5_flags(ctx, F, table):
     if ok:
         a = [vf.render(x, b, short=True) for x in v.call_args(nw[0])]
         ok = a[0] == "inode" and a[2] == "flags" and "open_inode(self, inode, flags)" in a[1]
-    ctx.check("R5-flag-algebra", "do_open/handle-flags", ok, "do_open does not record (inode, file opened with the request's flags, the request's flags) in the handle", loc=b.loc())
+    ctx.check(rule, "do_open/handle-flags", ok, "do_open does not record (inode, file opened with the request's flags, the request's flags) in the handle", loc=b.loc())
     # create records the request's flags as well (not the rewritten open flags): check_fd_flags compares them with each WRITE's flags
     b = c08.pfs_method(F, "create")
     v = vf.VF(b, inline_depth=0)
@@ -361,7 +448,7 @@ def r5_flags(ctx, F, table):
     if ok:
         a = [vf.render(x, b, short=True) for x in v.call_args(nw[0])]
         ok = a[0].endswith("?.inode") and "do_lookup(self, parent, name)" in a[0] and a[2] == "args.flags"
-    ctx.check("R5-flag-algebra", "create/handle-flags", ok,
+    ctx.check(rule, "create/handle-flags", ok,
               "create records `%s` as the handle's flags; like do_open it must record the request's flags (args.flags), otherwise the first WRITE "
               "re-applies flags the open deliberately cleared (O_APPEND under writeback)" % (vf.render(v.call_args(nw[0])[2], b, short=True)[:120] if nw else "?"), loc=b.loc())
 
